@@ -17,6 +17,8 @@ type Explorer struct {
 	solver    *Solver
 	newWork   [][]int
 	branches  int // solver-decided branches on this path
+	site      string
+	sites     map[string]int
 }
 
 func (e *Explorer) feasible(c *Term) string {
@@ -62,6 +64,9 @@ func (e *Explorer) branch(c *Term) bool {
 			alt := append(append([]int{}, e.decisions...), 0)
 			e.newWork = append(e.newWork, alt)
 			e.branches++
+			if e.sites != nil {
+				e.sites[e.site]++
+			}
 		}
 		d = true
 	}
@@ -85,6 +90,9 @@ func (e *Explorer) choice(n int) int {
 		d := e.prefix[k]
 		e.record(d, n)
 		return d
+	}
+	if os.Getenv("GOSYM_DEBUG_CHOICE") != "" {
+		fmt.Fprintf(os.Stderr, "CHOICE n=%d site=%s\n", n, e.site)
 	}
 	for alt := 1; alt < n; alt++ {
 		e.newWork = append(e.newWork, append(append([]int{}, e.decisions...), alt))
@@ -281,6 +289,16 @@ type pathResult struct {
 func (env *Env) runPath(h *Harness, shape int, prefix []int, s *Solver) (pr pathResult) {
 	s.reset()
 	e := &Explorer{prefix: prefix, solver: s}
+	if profileSites != nil {
+		e.sites = map[string]int{}
+		defer func() {
+			profileMu.Lock()
+			for k, v := range e.sites {
+				profileSites[k] += v
+			}
+			profileMu.Unlock()
+		}()
+	}
 	in := env.newInterp(e)
 	defer func() {
 		in.killThreads()
@@ -350,5 +368,38 @@ func (env *Env) runPath(h *Harness, shape int, prefix []int, s *Solver) (pr path
 		panic(pathAbort{"unknown", "path condition not satisfiable at end of path: " + r})
 	}
 	pr.sample = in.makeSample(h, shape, model)
+	if os.Getenv("GOSYM_DEBUG_PATHS") != "" {
+		fmt.Fprintf(os.Stderr, "PATH %v model=%v\n", e.decisions, model)
+	}
 	return
+}
+
+var profileSites map[string]int
+var profileMu sync.Mutex
+
+func init() {
+	if os.Getenv("GOSYM_PROFILE") != "" {
+		profileSites = map[string]int{}
+	}
+}
+
+func dumpProfile() {
+	if profileSites == nil {
+		return
+	}
+	type kv struct {
+		k string
+		v int
+	}
+	var l []kv
+	for k, v := range profileSites {
+		l = append(l, kv{k, v})
+	}
+	sort.Slice(l, func(i, j int) bool { return l[i].v > l[j].v })
+	for i, x := range l {
+		if i > 25 {
+			break
+		}
+		fmt.Fprintf(os.Stderr, "FORKS %6d %s\n", x.v, x.k)
+	}
 }
